@@ -33,6 +33,7 @@ def run_config(chk, tier, cfgname):
     slot_strong(chk, prog)
     typestate.apply(chk, "stash-adoption", "adopt", only=lambda r: r.pre["path"] == "DynamicRootSet::stash")
     slots.run_tables(chk, prog)
+    slots.explore(chk, prog, depth=7 if tier == "quick" else 9)
     pairing(chk, prog)
     fetch_rules(chk, prog)
     c12.rebrand(chk, prog, cfgname)
